@@ -284,6 +284,9 @@ func sortedKeys(dict map[string]value) []string {
 }
 
 func (f *fields) del(name string) bool {
+	if f == nil {
+		return false
+	}
 	_, exists := f.d[name]
 	if exists {
 		delete(f.d, name)
@@ -292,6 +295,9 @@ func (f *fields) del(name string) bool {
 }
 
 func (f *fields) delAt(i int) bool {
+	if f == nil {
+		return false
+	}
 	a := f.a
 	if i < 0 || len(a) <= i {
 		return false
